@@ -215,6 +215,16 @@ impl CellBuffer {
             .flatten()
             .chain(single_member_fragments.into_iter())
             .collect();
+        #[cfg(feature = "verif-trace")]
+        crate::verif::emit("regroup", || {
+            format!(
+                "\"free\":{},\"groups\":{}",
+                crate::verif::json_fragment_spans(accepted.iter()),
+                crate::verif::json_list(rejects.iter(), |group| {
+                    crate::verif::json_fragment_spans(group.iter())
+                })
+            )
+        });
         Endorse { accepted, rejects }
     }
 
@@ -582,6 +592,24 @@ impl From<&str> for CellBuffer {
         } else {
             None
         };
+        #[cfg(feature = "verif-trace")]
+        crate::verif::emit("legend", || {
+            format!(
+                "\"loc\":{},\"rules\":{}",
+                css_styles
+                    .as_ref()
+                    .map(|(loc, _)| input[..*loc].chars().count() as i64)
+                    .unwrap_or(-1),
+                crate::verif::json_list(
+                    css_styles.iter().flat_map(|(_, rules)| rules.iter()),
+                    |(name, css)| format!(
+                        "[{},{}]",
+                        crate::verif::json_chars(name),
+                        crate::verif::json_chars(css)
+                    )
+                )
+            )
+        });
         if let Some((loc, css_styles)) = css_styles {
             let mut cell_buffer =
                 CellBuffer::from(StringBuffer::from(&input[..loc]));
@@ -610,6 +638,30 @@ impl From<StringBuffer> for CellBuffer {
                 }
             }
         }
+        #[cfg(feature = "verif-trace")]
+        crate::verif::emit("cells", || {
+            format!(
+                "\"rows\":{},\"cells\":{},\"quoted\":{}",
+                crate::verif::json_list(sb.iter(), |row| {
+                    crate::verif::json_list(row.iter(), |ch| {
+                        (*ch as u32).to_string()
+                    })
+                }),
+                crate::verif::json_list(buffer.iter(), |(cell, ch)| format!(
+                    "[{},{},{}]",
+                    cell.x, cell.y, *ch as u32
+                )),
+                crate::verif::json_list(
+                    buffer.escaped_text.iter(),
+                    |(cell, text)| format!(
+                        "[{},{},{}]",
+                        cell.x,
+                        cell.y,
+                        crate::verif::json_chars(text)
+                    )
+                )
+            )
+        });
         buffer
     }
 }
@@ -622,6 +674,22 @@ impl From<&CellBuffer> for Vec<Span> {
     fn from(cb: &CellBuffer) -> Vec<Span> {
         let spans: Vec<Span> =
             cb.iter().map(|(cell, ch)| Span::new(*cell, *ch)).collect();
+        // with the hooks on, the grouping happens here and is logged; the call below then
+        // finds a fixpoint and returns it unchanged
+        #[cfg(feature = "verif-trace")]
+        let spans = {
+            let grouped = Span::merge_recursive(spans);
+            crate::verif::emit("spans", || {
+                format!(
+                    "\"spans\":{}",
+                    crate::verif::json_list(
+                        grouped.iter(),
+                        crate::verif::json_span
+                    )
+                )
+            });
+            grouped
+        };
         Span::merge_recursive(spans)
     }
 }
